@@ -5,7 +5,7 @@ from harness import dtwgen
 
 COQ_FILES = ["theories/BandTie.v", "theories/PyWps.v", "theories/PyWpsProofs.v", "gen/Gen_cfill.v", "gen/Gen_cexpand.v",
              "theories/CFill.v", "theories/CExpand.v", "theories/CFillSim.v", "gen/Gen_pywps.v", "theories/PyWpsGen.v",
-             "gen/Gen_cwpsk.v", "gen/Gen_cexpw.v", "theories/CWpsCanon.v", "theories/CWpsKernel.v", "theories/CWpsTie.v", "theories/CWpsCanonEu.v", "theories/CWpsValue.v", "theories/CWpsSpec.v", "theories/CWpsTieEu.v", "theories/CWpsSpecEu.v", "theories/CWpsFinal.v", "props/C04.v"]
+             "gen/Gen_cwpsk.v", "gen/Gen_cexpw.v", "theories/CWpsCanon.v", "theories/CWpsKernel.v", "theories/CWpsTie.v", "theories/CWpsCanonEu.v", "theories/CWpsValue.v", "theories/CWpsSpec.v", "theories/CWpsTieEu.v", "theories/CWpsSpecEu.v", "theories/CExpW.v", "theories/CWpsFinal.v", "props/C04.v"]
 THEOREMS = [("DVProps.C04", "C04_cell_lower_bound"), ("DVProps.C04", "C04_cell_attained"),
             ("DVProps.C04", "C04_matrix_shape"), ("DVProps.C04", "C04_out_of_band_inf"),
             ("DVProps.C04", "C04_code_matrix_is_spec"), ("DVProps.C04", "C04_code_matrix_with_bound"),
@@ -15,7 +15,8 @@ THEOREMS = [("DVProps.C04", "C04_cell_lower_bound"), ("DVProps.C04", "C04_cell_a
             ("DVProps.C04", "C04_py_warping_paths_fill_as_written_with_bound"),
             ("DVProps.C04", "C04_c_wps_kernel_as_written"),
             ("DVProps.C04", "C04_c_wps_kernel_returns_the_dtw_value"),
-            ("DVProps.C04", "C04_c_wps_euclidean_kernel_as_written")]
+            ("DVProps.C04", "C04_c_wps_euclidean_kernel_as_written"),
+            ("DVProps.C04", "C04_c_fill_then_expand_as_written")]
 TRUSTED_BASE = [
     "Coq 8.16.1 kernel (no native_compute)",
     "tools/translate_py.py (band expressions of dtw.warping_paths regenerated into coq/gen/Gen_dtw.v)",
@@ -38,9 +39,10 @@ TRUSTED_BASE = [
     "when asked (C04_c_wps_kernel_returns_the_dtw_value); the same for the Euclidean twin "
     "(C04_c_wps_euclidean_kernel_as_written); the bounded run (pruning by max_dist) and the -1 marks of the kernels are "
     "regenerated too and tied by correspondence (site c.wpsk: extracted regenerated kernels vs the compiled ones, "
-    "cell by cell); dtw_expand_wps_slice is regenerated whole as well (Gen_cexpw.v) and compared with the compiled routine "
-    "on the whole matrix and on random slices of every c.wpsk case; the Python-side unpacking stays hand-modelled and "
-    "tied by correspondence",
+    "cell by cell); dtw_expand_wps_slice is regenerated whole as well (Gen_cexpw.v), PROVED to copy every kept cell of "
+    "the compact array to its place in the block for every slice, all accesses in range (C04_c_fill_then_expand_as_written, "
+    "CExpW.v), and compared with the compiled routine on the whole matrix and on random slices of every c.wpsk case; the "
+    "Python-side unpacking stays hand-modelled and tied by correspondence",
     "binary64 arithmetic exact on the integer-valued stream; sqrt correctly rounded",
 ]
 ASSUMPTIONS = ["exact arithmetic", "freedom of the property applied in judge(): cells above max_dist may be inf or "
